@@ -6,6 +6,8 @@ import Astria.Block.Tamper
   * The conductor's reconstruction: what is attached to a header, as the code is and with the
     rollup-id check that DESIGN §7 F10 proposes.
 -/
+set_option linter.unusedSectionVars false
+
 namespace Astria.Block
 open Astria.Merkle
 
